@@ -16,28 +16,50 @@ Proof.
 Qed.
 
 (* the operations that rebuild self.__class__(value) keep the class; an operand that
-   carries the default units of its class keeps its units *)
+   carries the default units of its class keeps its units, whichever way the method
+   sets them *)
+Definition all_unops : list unop := [U_abs; U_conjugate; U_sign; U_simplify; U_expand; U_copy; U_subs; U_limit; U_diff; U_integ].
+Lemma all_unops_complete : forall o, In o all_unops.
+Proof. destruct o; simpl; tauto. Qed.
 Definition rebuild_ok (d : domain) (q : quantity) : bool :=
-  match rebuild_model T (dop T d q VV) with
-  | RK d' q' u => deqb d' d && qeqb q' q && ueqb u (def_units T d q)
-  | _ => false
-  end.
-Theorem rebuild_keeps_class_and_units : forall d q, has_class T d = true ->
-  rebuild_model T (dop T d q VV) = RK d q (ou (dop T d q VV)).
+  forallb (fun o => res_eqb (rebuild_model T o (dop T d q VV)) (RK d q (def_units T d q))) all_unops.
+Lemma res_eqb_RK' : forall r d q u, res_eqb r (RK d q u) = true -> r = RK d q u.
+Proof.
+  intros [x y z| | |] d0 q0 u0; simpl; try discriminate. intros E.
+  apply andb_true_iff in E. destruct E as [E C]. apply andb_true_iff in E. destruct E as [A B].
+  apply deqb_eq in A. apply qeqb_eq in B. apply ueqb_eq in C. subst. reflexivity.
+Qed.
+Theorem rebuild_keeps_class_and_units : forall o d q, has_class T d = true ->
+  rebuild_model T o (dop T d q VV) = RK d q (ou (dop T d q VV)).
 Proof.
   assert (H : forallb (fun d => negb (has_class T d) || forallb (rebuild_ok d) all_quantities) all_domains = true)
     by (vm_cast_no_check (eq_refl true)).
-  intros d q Hd. pose proof (forall_dq _ H d q Hd) as K. unfold rebuild_ok in K.
-  destruct (rebuild_model T (dop T d q VV)) as [d' q' u|e| |] eqn:E; try discriminate.
-  apply andb_true_iff in K. destruct K as [K C]. apply andb_true_iff in K. destruct K as [A B].
-    apply deqb_eq in A. apply qeqb_eq in B. apply ueqb_eq in C. subst. reflexivity.
+  intros o d q Hd. pose proof (forall_dq _ H d q Hd) as K. unfold rebuild_ok in K.
+  apply res_eqb_RK'. exact (forallb_In _ _ _ K o (all_unops_complete o)).
 Qed.
-(* with OTHER operand units the rebuilt object gets the class default (findings units_reset:<op>);
-   witness inside the model: *)
-Definition rebuild_resets_witness : bool :=
+(* for ARBITRARY operand units: a method that sets ret.units = self.units returns the
+   operand's units *)
+Theorem rebuild_units_general : forall o a d q u,
+  keeps T o = true -> rebuild_model T o a = RK d q u -> u = ou a.
+Proof.
+  intros o a d q u Hk. unfold rebuild_model, construct. rewrite Hk.
+  destruct (dflag T F_is_undefined_domain (od a) && negb (is_undef_dom T a)); intros H; [discriminate H|].
+  inversion H; reflexivity.
+Qed.
+Theorem diff_integ_units_general : forall a d q u,
+  (keeps T U_diff = true -> diff_model T a = RK d q u -> u = usub (ou a) (var_units T (adom T a))) /\
+  (keeps T U_integ = true -> integ_model T a = RK d q u -> u = uadd (ou a) (var_units T (adom T a))).
+Proof.
+  intros a d q u. unfold diff_model, integ_model, construct. split; intros Hk; rewrite Hk;
+    destruct (dflag T F_is_undefined_domain (od a) && negb (is_undef_dom T a)); intros H; try discriminate H;
+    inversion H; reflexivity.
+Qed.
+(* while a method rebuilds with the class default, other operand units are lost
+   (findings units_reset:<op>); which operations still do: *)
+Definition resets (o : unop) : bool :=
   let a := Op Dlaplace Qpower (UV 1 1 2 0) VV in
-  match rebuild_model T a with RK _ _ u => negb (ueqb u (ou a)) | _ => false end.
-Eval vm_compute in rebuild_resets_witness.
+  match rebuild_model T o a with RK _ _ u => negb (ueqb u (ou a)) | _ => false end.
+Eval vm_compute in (map (fun o => (o, resets o)) all_unops).
 
 (* d/dx divides, and integration over x multiplies, the units by the units of the domain
    variable (exactly, including the rad tag), so integrating a derivative restores the
@@ -118,6 +140,20 @@ Definition present_pow_general : bool :=
 (* a convolution is an integral over the domain variable: for ARBITRARY operand units the
    result has the product of the operand units times the variable's units, and operands of
    different domains are refused *)
+(* the class of a convolution: that of self, or - with conv_by_operand - that of x when
+   self is a transfer function or a generic expression: then h * x and x * h agree *)
+Definition conv_comm_ok (d : domain) (q : quantity) : bool :=
+  match convolve_model T (dop T d Qtransfer VV) (dop T d q VV), convolve_model T (dop T d q VV) (dop T d Qtransfer VV) with
+  | RK d1 q1 u1, RK d2 q2 u2 => ueqb u1 u2 && (negb (conv_by_operand T) || qeqb q Qundef || (deqb d1 d2 && qeqb q1 q2))
+  | _, _ => false
+  end.
+Theorem convolve_with_transfer_commutes : forall d q, has_class T d = true -> conv_comm_ok d q = true.
+Proof.
+  assert (H : forallb (fun d => negb (has_class T d) || forallb (conv_comm_ok d) all_quantities) all_domains = true)
+    by (vm_cast_no_check (eq_refl true)).
+  intros d q Hd. exact (forall_dq _ H d q Hd).
+Qed.
+
 Theorem convolve_units : forall a b d q u,
   convolve_model T a b = RK d q u ->
   adom T a = adom T b /\ u = uadd (uadd (ou a) (ou b)) (dom_units T (adom T a)).
@@ -125,7 +161,7 @@ Proof.
   intros a b d q u. unfold convolve_model, same_dom.
   destruct (deqb (adom T a) (adom T b)) eqn:E; cbn [negb].
   - apply deqb_eq in E. unfold construct.
-    destruct (dflag T F_is_undefined_domain (od a) && negb (is_undef_dom T a)).
+    match goal with |- context [dflag T F_is_undefined_domain ?x && ?y] => destruct (dflag T F_is_undefined_domain x && y) end.
     + intros H; discriminate H.
     + intros H; inversion H; subst. split; [exact E|reflexivity].
   - intros H; discriminate H.
@@ -134,6 +170,9 @@ Qed.
 Eval vm_compute in (present_mag_real, present_pow_general).
 
 Print Assumptions rebuild_keeps_class_and_units.
+Print Assumptions rebuild_units_general.
+Print Assumptions diff_integ_units_general.
+Print Assumptions convolve_with_transfer_commutes.
 Print Assumptions var_units_are_domain_units.
 Print Assumptions diff_integ_units.
 Print Assumptions phase_is_angle.
